@@ -275,6 +275,9 @@ struct World<'a> {
     files: Vec<Option<FileModel>>,
     dir: String,
     op_index: usize,
+    real_dir_made: bool,
+    /// read() was seen to bypass the seam: keep the real directory in sync before every read
+    read_bypass: bool,
 }
 
 fn vfail(class: &str, key: &str, w: &World, what: String) -> Verdict {
@@ -288,6 +291,23 @@ impl<'a> World<'a> {
             None
         } else {
             Some(live[m % live.len()])
+        }
+    }
+
+    fn make_real_dir(&mut self) {
+        if !self.real_dir_made {
+            let _ = std::fs::create_dir_all(&self.dir);
+            self.real_dir_made = true;
+        }
+    }
+
+    /// write every simulated file to its real path (seam-bypass fallback only)
+    fn materialise(&mut self) {
+        self.read_bypass = true;
+        self.make_real_dir();
+        let d = self.disk.borrow();
+        for (path, bytes) in d.files.iter() {
+            let _ = std::fs::write(path, bytes);
         }
     }
 
@@ -526,9 +546,9 @@ impl<'a> World<'a> {
                 let mut want = 0.0;
                 let mut abs = 0.0;
                 for k in 0..n - 1 {
-                    let t = 0.5 * (l.model.nodes[k + 1] - l.model.nodes[k]) * (l.model.vars[k][var] + l.model.vars[k + 1][var]);
-                    want += t;
-                    abs += t.abs();
+                    let dx = l.model.nodes[k + 1] - l.model.nodes[k];
+                    want += 0.5 * dx * (l.model.vars[k][var] + l.model.vars[k + 1][var]);
+                    abs += 0.5 * dx.abs() * (l.model.vars[k][var].abs() + l.model.vars[k + 1][var].abs());
                 }
                 let exact = exact_friendly(&l.model.nodes, l.model.vars.iter().map(|v| v[var]));
                 self.stats.count(if exact { "op.trapezium_1d_exact" } else { "op.trapezium_1d_rounded" });
@@ -554,12 +574,14 @@ impl<'a> World<'a> {
                 let got = l.mesh.trapezium(var);
                 let (x0, x1) = (l.model.nodes[0], l.model.nodes[n - 1]);
                 let want = a * (x1 - x0) + b * 0.5 * (x1 * x1 - x0 * x0);
-                let mut abs = 0.0;
+                // tolerance relative to the magnitudes that enter the computation (|a| L + |b| x^2 and the
+                // nodal values), never to the result, which may cancel to ~0
+                let mut abs = a.abs() * (x1 - x0) + b.abs() * 0.5 * (x1 * x1 + x0 * x0);
                 for k in 0..n - 1 {
-                    abs += (0.5 * (l.model.nodes[k + 1] - l.model.nodes[k]) * (l.model.vars[k][var] + l.model.vars[k + 1][var])).abs();
+                    abs += 0.5 * (l.model.nodes[k + 1] - l.model.nodes[k]) * (l.model.vars[k][var].abs() + l.model.vars[k + 1][var].abs());
                 }
                 self.stats.count("op.trapezium_1d_linear_closed_form");
-                if !((got - want).abs() <= 1e-11 * (abs + want.abs()) + 1e-300) {
+                if !((got - want).abs() <= 1e-11 * abs + 1e-300) {
                     let nodes = l.model.nodes.clone();
                     return vfail("quadrature", "trap1-linear", self, format!("1-D trapezium of the linear function {a}+{b}x over [{x0:e},{x1:e}] = {got:e}, exact integral {want:e} (nodes {:?})", nodes));
                 }
@@ -673,9 +695,9 @@ impl<'a> World<'a> {
                 let mut abs = 0.0;
                 for i in 0..nx - 1 {
                     for j in 0..ny - 1 {
-                        let t = 0.25 * (self.model2.x[i + 1] - self.model2.x[i]) * (self.model2.y[j + 1] - self.model2.y[j]) * (g(i, j) + g(i + 1, j) + g(i, j + 1) + g(i + 1, j + 1));
-                        want += t;
-                        abs += t.abs();
+                        let w4 = 0.25 * (self.model2.x[i + 1] - self.model2.x[i]) * (self.model2.y[j + 1] - self.model2.y[j]);
+                        want += w4 * (g(i, j) + g(i + 1, j) + g(i, j + 1) + g(i + 1, j + 1));
+                        abs += w4.abs() * (g(i, j).abs() + g(i + 1, j).abs() + g(i, j + 1).abs() + g(i + 1, j + 1).abs());
                     }
                 }
                 let nodes_ok = exact_friendly(&self.model2.x, std::iter::empty()) && exact_friendly(&self.model2.y, std::iter::empty());
@@ -734,6 +756,22 @@ impl<'a> World<'a> {
         };
         self.count_fired(est);
         self.disk.borrow_mut().end_op();
+        // The code under test never touched the simulated disk and died: it writes through an API
+        // the seam does not cover. Give it the real directory and run the operation again; no
+        // fault can be injected there, the fault-free oracles still apply (never a false alarm).
+        let r = if r.is_err() && writes == 0 && creates == 0 {
+            self.make_real_dir();
+            self.disk.borrow_mut().files.remove(&p);
+            self.stats.count("note.seam_bypassed_output_retried_on_real_fs");
+            let l = self.pool[s].as_ref().unwrap();
+            catch(|| l.mesh.output(&p, prec))
+        } else {
+            if r.is_ok() && writes == 0 && creates == 0 {
+                self.disk.borrow_mut().files.remove(&p);
+                self.stats.count("note.seam_bypassed_output");
+            }
+            r
+        };
         self.stats.count("op.output");
         self.stats.steps += (writes + creates) as u64;
         if s >= 1 && self.pool.len() > 1 {
@@ -764,13 +802,30 @@ impl<'a> World<'a> {
                 let file = FileModel { content, prec, acknowledged: true };
                 // acknowledged: the file must read back (fault-free, fresh 0-node reader)
                 let mut fresh = Mesh1D::<f64, f64>::new(Vector::<f64>::empty(), nvars);
+                if self.read_bypass {
+                    self.materialise();
+                }
                 self.disk.borrow_mut().begin_op(&[]);
                 let rr = catch(|| {
                     fresh.read(&p);
                 });
-                let reads = self.disk.borrow().op_reads;
+                let (reads, opens) = {
+                    let d = self.disk.borrow();
+                    (d.op_reads, d.op_opens)
+                };
                 self.disk.borrow_mut().end_op();
                 self.stats.steps += reads as u64;
+                let rr = if rr.is_err() && reads == 0 && opens == 0 {
+                    // read bypasses the seam: hand it the simulated files on the real file system
+                    self.materialise();
+                    self.stats.count("note.seam_bypassed_read_retried_on_real_fs");
+                    fresh = Mesh1D::<f64, f64>::new(Vector::<f64>::empty(), nvars);
+                    catch(|| {
+                        fresh.read(&p);
+                    })
+                } else {
+                    rr
+                };
                 self.stats.count("probe.read_into_zero_node_mesh");
                 let class = if hard { "acknowledged-but-wrong" } else { "round-trip" };
                 if hard {
@@ -808,6 +863,9 @@ impl<'a> World<'a> {
             }
         });
         let armed = self.arm(faults, 4, 0);
+        if self.read_bypass {
+            self.materialise();
+        }
         let before_nodes;
         let r;
         let mut fresh: Option<Mesh1D<f64, f64>> = None;
@@ -833,6 +891,30 @@ impl<'a> World<'a> {
         };
         self.count_fired(4);
         self.disk.borrow_mut().end_op();
+        // read bypassed the seam (never opened anything on the simulated disk) and died: put the
+        // simulated files on the real file system and let it try again, fault-free.
+        let r = if r.is_err() && opens == 0 && reads == 0 {
+            self.materialise();
+            self.stats.count("note.seam_bypassed_read_retried_on_real_fs");
+            match target_slot {
+                Some(s) => {
+                    // the reader may be half-updated: rebuild it from its model first
+                    let model = self.pool[s].as_ref().unwrap().model.clone();
+                    self.pool[s] = Some(Live1 { mesh: build1(&model), model });
+                    let mesh = &mut self.pool[s].as_mut().unwrap().mesh;
+                    catch(|| mesh.read(&p))
+                }
+                None => {
+                    let nodes: Vec<f64> = (0..fresh_nodes).map(|k| k as f64).collect();
+                    let mut mesh = Mesh1D::<f64, f64>::new(Vector::<f64>::create(nodes), nvars);
+                    let rr = catch(|| mesh.read(&p));
+                    fresh = Some(mesh);
+                    rr
+                }
+            }
+        } else {
+            r
+        };
         self.stats.count("op.read");
         self.stats.steps += (reads + opens) as u64;
         let file_nodes = file.content.nodes.len();
@@ -934,7 +1016,7 @@ impl Prop for C19 {
         ch.str(&format!("{:?}", case));
         stats.seen("nontrivial_cases", ch.finish());
         let dir = DIR.with(|d| d.clone());
-        let mut w = World { stats, disk: disk.clone(), pool: vec![Some(Live1 { mesh: mesh1, model: model1 })], m2, model2, files: vec![None, None, None], dir, op_index: 0 };
+        let mut w = World { stats, disk: disk.clone(), pool: vec![Some(Live1 { mesh: mesh1, model: model1 })], m2, model2, files: vec![None, None, None], dir, op_index: 0, real_dir_made: false, read_bypass: false };
         let mut verdict = w.check1(0, "construction").and_then(|_| w.check2("construction"));
         let mut prev: Option<&'static str> = None;
         if verdict.is_ok() {
@@ -967,6 +1049,10 @@ impl Prop for C19 {
             }
         }
         let _ = verif_seam::fs::uninstall();
+        if w.real_dir_made {
+            let _ = std::fs::remove_dir_all(&w.dir);
+        }
+        drop(w);
         let d = disk.borrow();
         stats.log.u64(d.log.finish());
         stats.log.u64(d.total_calls);
